@@ -400,8 +400,8 @@ func (k *ExtendedKey) UnmarshalBinary(data []byte) error {
 	}
 
 	k.Version = version
-	k.KeyData = keyData
-	k.ChainCode = chainCode
+	k.KeyData = append([]byte(nil), keyData...)
+	k.ChainCode = append([]byte(nil), chainCode...)
 	k.Fingerprint = fingerprint
 	k.Depth = depth
 	k.ChildNumber = childNumber
